@@ -129,6 +129,15 @@ m("noblack-different-tokens", "_format.py", "        return text\n\n    with war
 m("format-cmd-dedent", "_format.py", '        return result.stdout.decode("utf-8")', '        return result.stdout.decode("utf-8").replace("True", "1")', ["C16"], "format-command path yields a different syntax tree (True -> 1)")
 
 
+# ---- C03
+m("range-swapped-last-token", "_change.py", "            (end_of(last_token), start_of(end_token)),\n            code,", "            (end_of(last_token), end_of(end_token)) if code == \",\" else (end_of(last_token), start_of(end_token)),\n            code,", ["C03", "C02"], "1-tuple edit swallows the closing bracket")
+m("offset-bytes-not-chars", "_rewrite_code.py", "    def offset(self, line_numbers):\n        return line_numbers.line_to_offset(self.lineno, self.col_offset)", "    def offset(self, line_numbers):\n        o = line_numbers.line_to_offset(self.lineno, self.col_offset)\n        s = line_numbers.line_to_offset(self.lineno, 0)\n        return o + sum(len(ch.encode()) - 1 for ch in line_numbers._text[s:o] if ord(ch) > 0xFFFF)", ["C03"], "astral characters left of the call shift the edit position")
+m("always-format-whole-file", "_rewrite_code.py", "        format_whole_file = enforce_formatting() or code == format_code(\n            code, self.filename\n        )", "        format_whole_file = True", ["C03", "C20"], "whole-file black without the clean check")
+m("crlf-revert", "_rewrite_code.py", '        if isinstance(newlines, str) and newlines != "\\n":', "        if False:", ["C03"], "revert of the newline fix")
+m("replace-range-too-wide", "_change.py", "        range = self.file.asttokens().get_text_positions(self.node, False)", "        range = self.file.asttokens().get_text_positions(self.node, True)", [], "padded positions (equivalent for expression nodes; informational)")
+m("strip-bom", "_rewrite_code.py", "        with open(self.filename, \"bw\") as code:\n            code.write(new_code.encode())", "        with open(self.filename, \"bw\") as code:\n            code.write(new_code.lstrip(chr(0xfeff)).encode())", ["C03"], "BOM dropped on rewrite")
+
+
 def make_copy(mut):
     base = os.environ.get("VERIF_TMP") or ("/dev/shm" if os.path.isdir("/dev/shm") else tempfile.gettempdir())
     d = Path(tempfile.mkdtemp(prefix="mutant-", dir=base))
